@@ -26,6 +26,26 @@ def startsWithConnect (bytes : Bytes) : Bool :=
   | b :: _ => b.toNat / 16 == 1
   | [] => false
 
+/-- protocol name and level as they stand on the wire in a CONNECT frame: fixed-header byte,
+    remaining length (1–4 bytes), 16-bit length + name, level byte -/
+def wireNameLevel (bytes : Bytes) : Option (Bytes × Nat) :=
+  match bytes with
+  | _ :: r =>
+    let body := (r.dropWhile (fun b => b.toNat ≥ 128)).drop 1
+    match body with
+    | hi :: lo :: r' =>
+      let n := hi.toNat * 256 + lo.toNat
+      (match (r'.drop n).head? with
+       | some lv => if r'.length > n then some (r'.take n, lv.toNat) else none
+       | none => none)
+    | _ => none
+  | [] => none
+
+/-- "a CONNECT of the listener's protocol version": the level byte ON THE WIRE is the listener's
+    (4 for `V4`, 5 for `V5`) and the protocol name is `MQTT` -/
+def wireVersionOk (cfg : Config) (bytes : Bytes) : Bool :=
+  wireNameLevel bytes == some ([77, 81, 84, 84], cfg.version.level)
+
 /-- the conditions under which a connection may proceed to the routing core -/
 def mayProceed (cfg : Config) (bytes : Bytes) (c : Connect) : Bool :=
   startsWithConnect bytes && c.level == cfg.version.level && c.keepAlive != 0
